@@ -151,7 +151,7 @@ impl ItsBinder {
                 b.ids.insert(idn.as_str().unwrap().to_string(), first);
             }
         }
-        for (t, idn) in inst["IdCOf"].as_object().unwrap() {
+        for (t, idn) in inst["IdCOf"].as_object().cloned().unwrap_or_default().iter() {
             let ta = b.canon[t].clone();
             let first = b.derive_id(&b.its.clone(), None, Some(&ta));
             let other = b.derive_id(&its_other_chain, None, Some(&ta));
